@@ -28,7 +28,7 @@ def run(ctx):
         if o["paths"]:
             layouts.add(tuple(sorted(o["positions"])))
         for p in o["problems"]:
-            res.violation(p["kind"], f"{p} for {json.dumps(it['G'])[:700]}", {"G": it["G"], "problem": p})
+            res.violation(p["kind"] + (":" + p["how"] if p.get("how") else ""), f"{p} for {json.dumps(it['G'])[:700]}", {"G": it["G"], "problem": p})
     res.coverage = {
         "evaluations": npaths,
         "distinct_nontrivial": len(layouts),
